@@ -3,7 +3,7 @@ from .. import modules
 
 
 def run(ctx):
-    if not ctx.build_harness():
+    if not ctx.build_harness(["c18.go"]):
         return
     # allocatable-register limits of the model come from the regenerated register table
     ctx.regen([modules.REGS])
